@@ -2,7 +2,7 @@
 from symx import api as sx
 from harness import common as C
 from harness.sdo_rig import ServerRig
-from refmodels.sdo_client import RefClient, Abort
+from refmodels.sdo_client import le32, RefClient, Abort
 from refmodels import cia301 as S301
 
 CLAIMED = True
@@ -348,6 +348,104 @@ def interleaved(n):
     sx.reach("interleaved")
 
 
+def two_servers(n, m):
+    """two local nodes in one process (fresh, each with its own dictionary) served frame by frame in turn: segmented
+    downloads whose frames interleave store each node's own payload, and interleaved uploads return each node's own
+    value - transfer state belongs to the server object"""
+    ra = ServerRig(sdo_od(), 2)
+    rb = ServerRig(sdo_od(), 3)
+    ca, cb = RefClient(ra.deliver, "C02"), RefClient(rb.deliver, "C02")
+    pa, pb = sx.fresh_bytes("pa", n), sx.fresh_bytes("pb", m)
+    mux = [0x00, 0x20, 0]
+
+    def segs(p):
+        it = sx.items(p)
+        out = []
+        for k in range(0, len(it), 7):
+            chunk = it[k:k + 7]
+            last = k + 7 >= len(it)
+            out.append([((k // 7) % 2) << 4 | ((7 - len(chunk)) << 1) | (1 if last else 0)] + chunk + [0] * (7 - len(chunk)))
+        return out
+    ok = True
+    ra_ = ca.xfer([0x21] + mux + le32(n))
+    rb_ = cb.xfer([0x21] + mux + le32(m))
+    sa, sb = segs(pa), segs(pb)
+    for k in range(max(len(sa), len(sb))):
+        for cli, ss in ((ca, sa), (cb, sb)):
+            if k < len(ss):
+                r = cli.xfer(ss[k])
+                if r is None or bool(r[0] == 0x80):
+                    ok = False
+    sx.prove(ok, "interleaved downloads to two nodes were refused", "C02/two-servers/refused")
+    if ok:
+        sx.prove(sx.eq_bytes(ra.node.data_store[0x2000][0], pa), "node A stores its own payload", "C02/two-servers/stored-a")
+        sx.prove(sx.eq_bytes(rb.node.data_store[0x2000][0], pb), "node B stores its own payload", "C02/two-servers/stored-b")
+    # interleaved uploads of the two values
+    ia = ca.xfer([0x40] + mux + [0, 0, 0, 0])
+    ib = cb.xfer([0x40] + mux + [0, 0, 0, 0])
+    for cli, init, p, nn, nm in ((ca, ia, pa, n, "a"), (cb, ib, pb, m, "b")):
+        if init is None:
+            return
+    got = {"a": [], "b": []}
+    fin = {"a": n <= 4, "b": m <= 4}
+    if n <= 4:
+        got["a"] = ia[4:4 + n]
+    if m <= 4:
+        got["b"] = ib[4:4 + m]
+    tog = {"a": 0, "b": 0}
+    guard = 0
+    while not (fin["a"] and fin["b"]) and guard < 40:
+        guard += 1
+        for cli, nm in ((ca, "a"), (cb, "b")):
+            if fin[nm]:
+                continue
+            r = cli.xfer([0x60 | tog[nm] << 4, 0, 0, 0, 0, 0, 0, 0])
+            if r is None or bool(r[0] == 0x80):
+                sx.fail("interleaved upload refused", "C02/two-servers/upload-refused")
+                return
+            cnt = sx.concretize(7 - ((r[0] >> 1) & 7))
+            got[nm] += r[1:1 + cnt]
+            tog[nm] ^= 1
+            if bool((r[0] & 1) == 1):
+                fin[nm] = True
+    for nm, p in (("a", pa), ("b", pb)):
+        sx.prove(len(got[nm]) == len(sx.items(p)), "uploaded length", "C02/two-servers/upload-length")
+        if len(got[nm]) == len(sx.items(p)):
+            sx.prove(sx.eq_bytes(sx.mkbytes(got[nm]), p), "each node serves its own value", "C02/two-servers/upload-" + nm)
+    sx.reach("two-servers")
+
+
+def two_read_callbacks(order):
+    """several read callbacks registered (one per object, as the documentation suggests): the value comes from the
+    callback that answers for the entry, wherever it stands in the list; callbacks that return None are passed over"""
+    rig = ServerRig(sdo_od())
+    cli = RefClient(rig.deliver, "C02")
+    v = sx.fresh_int("v", 0, 0xFFFFFFFF)
+    calls = []
+
+    def mine(index, subindex, od):
+        calls.append("mine")
+        return v if (index == 0x2013 and subindex == 0) else None
+
+    def other(index, subindex, od):
+        calls.append("other")
+        return 7 if index == 0x2001 else None
+    for c in order:
+        rig.node.add_read_callback(mine if c == "m" else other)
+    res = cli.upload(0x2013, 0)
+    tag = "C02/two-callbacks/" + order
+    if res is None:
+        return
+    if isinstance(res, Abort):
+        sx.fail("entry served by a read callback was refused", tag + "/refused")
+        return
+    data, announced = res
+    sx.prove(len(data) == 4, "length", tag + "/length")
+    if len(data) == 4:
+        sx.prove(sx.eq_bytes(sx.mkbytes(data), sx.mkbytes(le32(v))), "value of the answering callback", tag + "/bytes")
+    sx.reach("two-callbacks")
+
+
 def local_read_during_transfer(direction):
     """the application reads its own node's objects (node.sdo[...].raw, node.sdo.upload) while a client's segmented
     transfer is under way: the transfer is served / stored exactly as without the local read"""
@@ -414,6 +512,10 @@ def after_other_transfer(n, m):
 
 def jobs(tier):
     out = []
+    for n, m in ((11, 9), (8, 15), (5, 22), (15, 15)):
+        out.append(dict(func="two_servers", params=dict(n=n, m=m)))
+    for order in ("mo", "om", "omo", "oom"):
+        out.append(dict(func="two_read_callbacks", params=dict(order=order)))
     q = tier == "quick"
     for direction in ("upload", "download"):
         out.append(dict(func="local_read_during_transfer", params=dict(direction=direction)))
@@ -494,7 +596,7 @@ META = dict(
                     "more than 3 arbitrary frames in a row (covered by the step under the stated invariant)"],
     assumptions=["reference client written from CiA 301 7.2.4.3"],
     stubs=["struct", "bytes/bytearray", "dict displays -> SymDict", "logging", "Network.send_message replaced on the instance"],
-    required_reach=["upload-callback", "upload-store", "upload-value", "upload-default", "upload-empty",
+    required_reach=["two-servers", "two-callbacks", "upload-callback", "upload-store", "upload-value", "upload-default", "upload-empty",
                     "upload-segmented", "download-exp-size", "download-exp-nosize", "download-seg-size",
                     "download-seg-nosize", "robust-step", "abort-request", "robust-history", "interleaved", "after-other", "local-read", "stray", "upload-interrupts", "two-members"],
     limits=dict(quick=dict(max_decisions=20000), thorough=dict(max_decisions=20000, job_timeout_s=3000)),
